@@ -165,7 +165,8 @@ SpellGrid(g, sty) ==     \* g = <<18, ver, meta, cols, rows>>
 
 \* a document: grids separated by sty.gap blank lines; the final newline may be dropped (sty.fin = 2)
 SpellDoc(grids, sty) ==
-    LET body == Join([i \in 1..Len(grids) |-> SpellGrid(grids[i], sty)], [k \in 1..sty.gap |-> NL])
+    LET blank == FoldLeft(LAMBDA acc, k : acc \o Nl(sty), <<>>, [k \in 1..sty.gap |-> k])    \* CRLF documents have CRLF blank lines
+        body == Join([i \in 1..Len(grids) |-> SpellGrid(grids[i], sty)], blank)
     IN IF sty.fin = 2 /\ body # <<>> /\ body[Len(body)] = NL
        THEN SubSeq(body, 1, Len(body) - (IF sty.nl = 2 THEN 2 ELSE 1)) ELSE body
 DocDenotes(grids, sty) == [i \in 1..Len(grids) |-> Denotes(grids[i], sty)]
